@@ -285,3 +285,13 @@ Print Assumptions C17_cap_ops_safe.
 Theorem C18_lookup : forall (I P : Type) (keq : I -> I -> bool), @C18_lookup_stmt I P keq.
 Proof. intros; apply F_C18_lookup. Qed.
 Print Assumptions C18_lookup.
+
+(* C10 *)
+Theorem C10_leaked_iterators_safe : forall (I P : Type) (keq : I -> I -> bool) (hash : I -> N) (ple : P -> P -> bool) (peq : P -> P -> bool) (alloc_limit : N), run_safe_stmt keq hash ple peq alloc_limit.
+Proof. intros; apply F_run_safe. Qed.
+Print Assumptions C10_leaked_iterators_safe.
+
+(* C10 *)
+Theorem C10_drain_leak : forall (I P : Type) (keq : I -> I -> bool) (ple : P -> P -> bool), @C16_stmt I P keq ple.
+Proof. intros; apply F_C16. Qed.
+Print Assumptions C10_drain_leak.
